@@ -115,7 +115,7 @@ class Stream:
     def __init__(self, chk, tier, types, widths=(1, 2, 3), flavours=(0, 1, 2), ninst=None, with_viz=False, longarcs=False, stores=False, only_longarcs=False):
         self.chk = chk
         rng = Rng(chk.seed)
-        n = ninst if ninst is not None else (150 if tier == "quick" else 1500)
+        n = ninst if ninst is not None else (150 if tier == "quick" else 4000)
         self.blocks = []; self.meta = []
         if with_viz:
             # corpus first: minimised witnesses of defects found earlier (root sub-problem, every flavour and type, all 64 flag sets)
